@@ -48,30 +48,24 @@ CORR = set(range(1, 10))
 ORACLE = {
     11: (1, []),
     12: (2, [(208, 'C14-EVID-OTHER-RECORDS')]),
-    13: (3, [(201, 'C14-ID-LITERAL'), (205, 'C14-DOSEID-RESET-GROUP'), (206, 'C14-DOSEID-OBS-BETWEEN-DOSES'),
-             (207, 'C14-DOSEID-FIRST-DOSE'), (203, 'C14-DOSEID-FIRST-DOSE')]),
-    14: (4, [(201, 'C14-ID-LITERAL'), (216, 'C14-EXPAND-EXPLICIT-INDEX'), (211, 'C14-EXPAND-ID-ORDER')]),
+    13: (3, [(205, 'C14-DOSEID-RESET-GROUP'), (206, 'C14-DOSEID-OBS-BETWEEN-DOSES')]),
+    14: (4, [(216, 'C14-EXPAND-EXPLICIT-INDEX'), (211, 'C14-EXPAND-ID-ORDER')]),
     15: (4, []),
     29: (4, []),
     16: (5, [(213, 'C14-TAD-RESET-NEGATIVE')]),
     17: (5, []),
-    18: (5, [(201, 'C14-ID-LITERAL'), (216, 'C14-EXPAND-EXPLICIT-INDEX'),
-             (211, 'C14-TAD-REORDER-ID'), (214, 'C14-TAD-REORDER-TIE')]),
+    18: (5, [(216, 'C14-EXPAND-EXPLICIT-INDEX'), (211, 'C14-TAD-REORDER-ID'), (214, 'C14-TAD-REORDER-TIE')]),
     19: (5, [(215, 'C14-TAD-ID-DTYPE')]),
-    28: (5, [(201, 'C14-ID-LITERAL'), (205, 'C14-DOSEID-RESET-GROUP'), (206, 'C14-DOSEID-OBS-BETWEEN-DOSES'),
-             (207, 'C14-DOSEID-FIRST-DOSE'), (203, 'C14-DOSEID-FIRST-DOSE'),
+    28: (5, [(205, 'C14-DOSEID-RESET-GROUP'), (206, 'C14-DOSEID-OBS-BETWEEN-DOSES'),
              (211, 'C14-TAD-REORDER-ID'), (214, 'C14-TAD-REORDER-TIE'), (213, 'C14-TAD-RESET-NEGATIVE')]),
-    20: (6, [(209, 'C14-SQUEEZE-SINGLE')]),
-    21: (6, [(210, 'C14-SQUEEZE-SINGLE')]),
-    22: (6, [(209, 'C14-SQUEEZE-SINGLE')]),
-    31: (6, [(209, 'C14-SQUEEZE-SINGLE')]),
-    23: (7, []), 24: (7, [(221, 'C14-TVC-NO-COVARIATES')]),
+    20: (6, []), 21: (6, []), 22: (6, []), 31: (6, []),
+    23: (7, []), 24: (7, []),
     25: (8, [(218, 'C14-CMT-UNBOUND')]),
     26: (9, [(218, 'C14-CMT-UNBOUND'), (219, 'C14-ADMID-EVID4'), (208, 'C14-EVID-OTHER-RECORDS')]),
     27: (0, []),
 }
 # input-domain guards (not defects): an oracle failure is also excused when one of these is false
-DOMAIN = {13: [204], 14: [204], 18: [204, 217], 28: [204, 203], 16: [204]}
+DOMAIN = {13: [204, 203], 14: [204], 18: [204, 217], 28: [204, 203], 16: [204]}
 
 FIELD_OF_TYPE = {'id': 'id', 'idv': 'time', 'dose': 'amt', 'dv': 'dv', 'event': 'evid', 'mdv': 'mdv',
                  'compartment': 'cmt', 'admid': 'admid', 'ss': 'ss', 'additional': 'addl', 'ii': 'ii'}
@@ -218,8 +212,6 @@ def gen_spec(rng, clean=None):
             blocks[b] = blocks[b][:cut]
             blocks.insert(rng.randrange(len(blocks) + 1), tail)
     recs = [r for b in blocks for r in b]
-    if len(recs) < 2:                                   # single-record frames: get_mdv itself raises (squeeze); not modelled
-        recs = recs + [dict(recs[0], time=recs[0]['time'] + 1)]
     if clean:                                           # at least two observations and two doses (squeeze)
         last = recs[-1]
         def extra(kind_, dt_):
@@ -524,6 +516,8 @@ def _observe_safe(spec):
         return ('ok',) + observe(spec)
     except Unconvertible as e:
         return ('unconvertible', str(e), None)
+    except Exception as e:  # a derivation that is modelled as total raised: reported with the input
+        return ('crash', f'{type(e).__name__}: {e}', None)
 
 
 def observe_all(specs):
@@ -543,6 +537,11 @@ def run_specs(ctx, specs, label, quiet=False):
     terms, kept, infos = [], [], []
     skipped = 0
     for spec, (st, term, info) in zip(specs, observe_all(specs)):
+        if st == 'crash':
+            if not quiet:
+                ctx.violation('a derivation the model knows as total (get_mdv / get_evid / get_observations / '
+                              'get_baselines) raised: ' + term, {'spec': spec, 'tags': [], 'error': term})
+            continue
         if st != 'ok':
             skipped += 1
             ctx.coverage.setdefault('unconvertible_examples', []).append(term)
@@ -588,6 +587,8 @@ def finding_probes(ctx):
 
 
 def run(ctx):
+    # known_findings.d holds the UPDATED entries of this property: a later entry replaces an earlier one of the same id
+    ctx.findings = list({f['id']: f for f in ctx.findings}.values())
     ctx.build_gate(['C14'])
     ctx.trusted += [
         'harness/props/c14.py: generator, construction of the pharmpy model from a spec, export of Series/DataFrames '
@@ -652,11 +653,16 @@ def run(ctx):
 
 
 def replay(ctx, rep):
+    ctx.findings = list({f['id']: f for f in ctx.findings}.values())
     spec = rep.get('spec', rep)
     if 'cols' not in spec:
         print('this replay file records a broken obligation without a failing input:', json.dumps(rep)[:2000])
         return 1
     kept, verdicts, infos, _ = run_specs(ctx, [spec], 'replay', quiet=True)
+    if not verdicts:
+        print('spec', json.dumps(spec))
+        print('the implementation raised on this input:', _observe_safe(spec)[1])
+        return 1
     tags = verdicts[0]
     print('spec', json.dumps(spec))
     print('errors', infos[0]['errors'])
